@@ -7,12 +7,16 @@ package main
 // the real handleConn with real CPTVFileRecorders, real clock and real disk.
 
 import (
+	"bytes"
 	"fmt"
 	"io"
+	"io/ioutil"
+	"log"
 	"os"
 	"path/filepath"
 	"sort"
 	"strings"
+	"sync"
 	"sync/atomic"
 	"syscall"
 	"testing"
@@ -134,7 +138,15 @@ func TestVerif_C05Pipe(t *testing.T) {
 		bucketS := cfg.MinSecs + cfg.PreviewSecs + rng.Range(1, 3)
 		refillMS := rng.PickInt(500, 1000, 2000)
 		cfg.Throttle, cfg.BucketSize, cfg.MinRefill = true, fmt.Sprintf("%ds", bucketS), fmt.Sprintf("%dms", refillMS)
+		if idx%4 == 2 {
+			// a partial [thermal-throttler] section: only bucket-size is given, min-refill keeps its
+			// documented default of ten minutes
+			cfg.MinRefill, refillMS = "", 600000
+		}
 		pace := 2 * time.Millisecond
+		if idx%4 == 2 {
+			pace = 7 * time.Millisecond // long enough for a refill period as short as the bucket to show
+		}
 		frames := burstStream(rng, cam, nf, continuous)
 		B := bucketS * fps
 		rate := float64(minLen) / (float64(refillMS) / 1000)
@@ -238,6 +250,9 @@ func TestVerif_C05Pipe(t *testing.T) {
 			}
 			if idx%4 == 3 {
 				c.Count("runs_after_a_camera_with_another_fps", 1)
+			}
+			if idx%4 == 2 {
+				c.Count("runs_with_default_min_refill", 1)
 			}
 			c.Count("frames_recorded_throttled", int64(got))
 			c.Count("frames_recorded_unthrottled", int64(off))
@@ -492,6 +507,14 @@ func TestVerif_C17Pipe(t *testing.T) {
 		if rng.Bool() {
 			cfg.WindowStart, cfg.WindowStop = time.Now().Add(3*time.Hour).Format("15:04"), time.Now().Add(5*time.Hour).Format("15:04")
 		}
+		if idx%4 == 1 {
+			// thermal-motion settings that print longer than the camera-model defaults (five-digit
+			// limits, two-digit counts): the header text of every file stays within what the CPTV
+			// format can hold
+			cam = leptonCamera("lepton3.5", 16, 12, cam.FPS)
+			cfg.Motion = pMotion{Set: map[string]bool{"temp-thresh-min": true, "temp-thresh-max": true, "count-thresh": true, "frame-compare-gap": true, "trigger-frames": true, "dynamic-threshold": true, "temp-thresh": true, "delta-thresh": true, "edge-pixels": true},
+				DynamicThreshold: false, TempThresh: 28000, TempThreshMin: 28000, TempThreshMax: 31000, CountThresh: 12, FrameCompareGap: 45, TriggerFrames: 10, DeltaThresh: 20000, EdgePixels: 1}
+		}
 		lowDisk := idx%3 == 2
 		if lowDisk {
 			// not enough free space for motion recordings: the continuous recorder and test
@@ -611,6 +634,9 @@ func TestVerif_C17Pipe(t *testing.T) {
 				return
 			}
 			c.Count("pipeline_runs", 1)
+			if idx%4 == 1 {
+				c.Count("runs_with_long_motion_settings", 1)
+			}
 			if lowDisk {
 				c.Count("pipeline_runs_with_low_disk", 1)
 			}
@@ -647,6 +673,11 @@ func TestVerif_C12Pipe(t *testing.T) {
 		frames := c10Frames(cam, pattern)
 		nf := len(frames)
 		faultKind := rng.Intn(3) // 0 remove output dir, 1 unlink temp files during a recording, 2 both
+		watcher := idx%4 == 1
+		if watcher {
+			// a real recording window, open now
+			cfg.WindowStart, cfg.WindowStop = time.Now().Add(-3*time.Hour).Format("15:04"), time.Now().Add(3*time.Hour).Format("15:04")
+		}
 		faultFrom := rng.Range(2, nf/3)
 		faultTo := nf - 27 - rng.Range(0, 5)
 		testReq := rng.Range(1, nf-30)
@@ -660,6 +691,24 @@ func TestVerif_C12Pipe(t *testing.T) {
 				return
 			}
 			defer r.cleanup()
+			if watcher {
+				// as in the daemon, the configuration watcher runs next to the frame loop; config.toml is
+				// saved again without any relevant change before the camera connects
+				lb := &lockedBuf{}
+				log.SetOutput(lb)
+				go checkConfigChanges(r.Conf, r.ConfDir)
+				time.Sleep(150 * time.Millisecond)
+				ioutil.WriteFile(filepath.Join(r.ConfDir, "config.toml"), []byte(cfg.toml(r.OutDir, filepath.Join(r.Dir, "frames.sock"))), 0644)
+				seen := false
+				for i := 0; i < 500 && !seen; i++ {
+					time.Sleep(10 * time.Millisecond)
+					seen = strings.Contains(lb.String(), "No relevant changes")
+				}
+				log.SetOutput(ioutil.Discard)
+				if seen {
+					c.Count("runs_after_the_config_watcher_compared_configs", 1)
+				}
+			}
 			var rx int64
 			faults := 0
 			saved := r.OutDir + ".moved"
@@ -720,4 +769,116 @@ func TestVerif_C12Pipe(t *testing.T) {
 			c.Nontrivial(vNewHash().U64(uint64(idx)).Int(faults).Sum())
 		})
 	}
+}
+
+// TestVerif_C04Bursts: many well-separated motion bursts on ONE connection through the real
+// file recorder, with a dynamic threshold that moves between them (the scene cools down): every
+// burst completes a run of trigger-frames motion frames with window, disk and file creation
+// all fine, so every burst must get its recording - the first as well as the tenth.
+func TestVerif_C04Bursts(t *testing.T) {
+	c := vStart(t, "C04", "TestVerif_C04Bursts")
+	defer c.Finish()
+	scratch := vEnv("VERIF_SCRATCH", t.TempDir())
+	n := c.N(8, 64)
+	for idx := int64(0); idx < n; idx++ {
+		if !c.Mine(idx) {
+			continue
+		}
+		rng := c.RNG(idx)
+		model := []string{"lepton3", "lepton3.5"}[idx%2]
+		fps := rng.PickInt(3, 9)
+		cam := leptonCamera(model, 16, 12, fps)
+		cfg := basicConfig()
+		cfg.MinSecs, cfg.MaxSecs, cfg.PreviewSecs = 1, 2, 1
+		trig := rng.Range(1, 2)
+		cfg.Motion = pMotion{Set: map[string]bool{"trigger-frames": true, "count-thresh": true, "frame-compare-gap": true}, TriggerFrames: trig, CountThresh: 1, FrameCompareGap: 1}
+		base := 3000
+		if model == "lepton3.5" {
+			base = 28500
+		}
+		bursts := rng.Range(6, 12)
+		quiet := (cfg.MaxSecs+cfg.PreviewSecs+2)*fps + 3
+		var frames []*pFrame
+		seq := 0
+		hotAt := map[int]bool{}
+		for b := 0; b < bursts; b++ {
+			level := base + 120*(bursts-b) // the scene cools between bursts: the background and with it the dynamic threshold follow at once
+			for i := 0; i < quiet; i++ {
+				frames = append(frames, &pFrame{Seq: seq, TimeOnMS: timeOnFor(seq), FPATempCK: 30000, FPAFFCCK: 30000, Pix: newPix(cam.ResX, cam.ResY, uint16(level))})
+				seq++
+			}
+			for i := 0; i < trig+2; i++ {
+				f := &pFrame{Seq: seq, TimeOnMS: timeOnFor(seq), FPATempCK: 30000, FPAFFCCK: 30000, Pix: newPix(cam.ResX, cam.ResY, uint16(level))}
+				bx := 2 + (i*3)%9
+				for y := 4; y < 7; y++ {
+					for x := bx; x < bx+3; x++ {
+						f.Pix[y][x] = uint16(level + 20000)
+					}
+				}
+				hotAt[seq] = true
+				frames = append(frames, f)
+				seq++
+			}
+		}
+		for i := 0; i < quiet; i++ {
+			frames = append(frames, &pFrame{Seq: seq, TimeOnMS: timeOnFor(seq), FPATempCK: 30000, FPAFFCCK: 30000, Pix: newPix(cam.ResX, cam.ResY, uint16(base))})
+			seq++
+		}
+		c.Case(idx, func() interface{} {
+			return map[string]interface{}{"camera_model": model, "fps": fps, "trigger_frames": trig, "bursts": bursts, "frames": len(frames), "scene": "flat, 120 counts cooler before every burst; dynamic threshold (camera-model defaults)"}
+		}, func() {
+			r, err := prepareConn(scratch, cfg, cam)
+			if err != nil {
+				c.Inconclusive("prepareConn: " + err.Error())
+				return
+			}
+			defer r.cleanup()
+			r.serve(pacedFeed(cam, frames, 0), nil)
+			if r.Err != io.EOF {
+				c.Violation("pipeline-failed", "many bursts on one connection", fmt.Sprintf("handleConn returned %v", r.Err))
+				return
+			}
+			files := decodeDir(r.OutDir)
+			got := 0
+			thresholds := map[string]bool{}
+			for _, d := range files {
+				if d.Err != "" {
+					c.Violation("pipeline-failed", "many bursts on one connection", d.Name+": "+d.Err)
+					return
+				}
+				for _, s := range d.seqs() {
+					if hotAt[s] {
+						got++
+						break
+					}
+				}
+				thresholds[d.Motion] = true
+			}
+			if got != bursts {
+				c.Violation("missing-start", "many bursts on one connection", fmt.Sprintf("%d motion bursts (each %d frames with a block 20000 counts above a flat scene, window open, disk fine), %d recordings holding burst frames; files: %s; leftovers in the output directory: %v", bursts, trig+2, got, filesString(files), debris(r.OutDir)))
+				return
+			}
+			c.Count("burst_connections", 1)
+			c.Count("bursts_recorded", int64(got))
+			c.Count("distinct_header_motion_texts", int64(len(thresholds)))
+			c.Nontrivial(vNewHash().U64(uint64(idx)).Int(bursts).Int(len(thresholds)).Sum())
+		})
+	}
+}
+
+// lockedBuf is a log sink that can be read while other goroutines log.
+type lockedBuf struct {
+	mu sync.Mutex
+	b  bytes.Buffer
+}
+
+func (l *lockedBuf) Write(p []byte) (int, error) {
+	l.mu.Lock()
+	defer l.mu.Unlock()
+	return l.b.Write(p)
+}
+func (l *lockedBuf) String() string {
+	l.mu.Lock()
+	defer l.mu.Unlock()
+	return l.b.String()
 }
